@@ -449,10 +449,15 @@ def const_eval(t: T, env: Optional[Dict[T, object]] = None):
                         "builtins.bool": bool}[n](*args)
             if n in (".startswith", ".endswith", ".lower", ".upper",
                      ".strip", ".lstrip", ".rstrip", ".replace",
-                     ".removeprefix", ".removesuffix", ".isdigit"):
+                     ".removeprefix", ".removesuffix", ".isdigit",
+                     ".isnumeric", ".isdecimal", ".count", ".find"):
                 recv = ev(tm.method_recv(x))
                 if isinstance(recv, str):
                     return getattr(recv, n[1:])(*args)
+            if n == ".is_integer" and not args:
+                recv = ev(tm.method_recv(x))
+                if isinstance(recv, float):
+                    return recv.is_integer()
         raise _NoValue(tm.show(x)[:60])
     try:
         return ev(t)
